@@ -359,13 +359,10 @@ func c06Gen(rng *rand.Rand, m *model.Model, keys []string) []string {
 }
 
 func checkC06(r *verdict.Run) {
-	r.Rule = "(1) exhaustive matrix: every data-command template (a canonical valid invocation of each command plus 130 invocations that fail on their arguments) x target key of every type (missing, string, list, hash, set, a string holding the empty value, and the typed ones with a TTL in thorough) on a fresh emulator, reply and full state vs the reference model, failed commands inert; " +
+	r.Rule = "(1) exhaustive matrix: every data-command template (a canonical valid invocation of each command plus 130 invocations that fail on their arguments) x target key of every type (missing, string, list, hash, set, a string holding the empty value, and the typed ones with a TTL) on a fresh emulator, reply and full state vs the reference model, failed commands inert; " +
 		"(2) removing the last element through 30 different doors, then EXISTS/TYPE/KEYS/SCAN/DBSIZE/LLEN/HLEN/SCARD vs model; " +
 		"(3) random keyspace sequences (DEL/UNLINK/EXISTS/TOUCH/TYPE/RENAME/RENAMENX/COPY/KEYS with glob patterns/RANDOMKEY/DBSIZE/SORT with options) mixed with writes of every type; (4) keyspace churn: sequences of 400-1200 steps creating, deleting, renaming, copying and expiring 37 key names so that the keyspace table grows, shrinks and ages, KEYS */DBSIZE compared after every step. distinct = matrix cells + doors + (command+options, prior class, outcome)"
-	types := []string{"missing", "string", "list", "hash", "set", "string-empty"}
-	if r.Tier == "thorough" {
-		types = append(types, "string+ttl", "list+ttl", "hash+ttl", "set+ttl")
-	}
+	types := []string{"missing", "string", "list", "hash", "set", "string-empty", "string+ttl", "list+ttl", "hash+ttl", "set+ttl"}
 	c06Matrix(r, types)
 	r.SetExhaustive(false)
 	c06LastElement(r)
